@@ -686,6 +686,29 @@ func (a *FuncAn) callResult(v ssa.Value, call *ssa.Call, idx int, single bool) L
 			return l
 		}
 	}
+	if sc := call.Call.StaticCallee(); sc != nil && idx == 0 {
+		switch sc.String() {
+		case "encoding/hex.Decode", "encoding/hex.Encode", "copy", "(*bytes.Buffer).Len", "(*bytes.Reader).Len", "(*strings.Builder).Len",
+			"encoding/base64.(*Encoding).Decode", "(*encoding/base64.Encoding).Decode", "(*encoding/base64.Encoding).EncodedLen", "(*encoding/base64.Encoding).DecodedLen",
+			"encoding/hex.EncodedLen", "encoding/hex.DecodedLen", "encoding/binary.PutUvarint", "encoding/binary.PutVarint", "unicode/utf8.RuneCountInString", "unicode/utf8.RuneCount", "unicode/utf8.RuneLen":
+			// "returns the number of bytes written / decoded", a length or a count: never negative (RuneLen: -1 excluded by
+			// not listing a tighter bound; only the documented sign is used)
+			if sc.String() == "unicode/utf8.RuneLen" {
+				break
+			}
+			l := a.opaque(v)
+			if at := l.t[0].a; !a.inited2[at] {
+				a.inited2[at] = true
+				zero := int64(0)
+				a.bounds(at, &zero, nil)
+				// hex.Decode / base64 Decode write at most len(dst) bytes
+				if (sc.String() == "encoding/hex.Decode" || sc.String() == "encoding/hex.Encode") && len(call.Call.Args) == 2 {
+					a.lemma(Add(a.LenOf(call.Call.Args[0]), l, -1))
+				}
+			}
+			return l
+		}
+	}
 	sums, ok := a.E.joinSummaries(call)
 	if !ok {
 		return a.opaque(v)
